@@ -301,4 +301,227 @@ theorem invokeCont_ok {s s' : St H} {c : Cont} (h : invokeCont s c = .ok s') :
       simp [List.getElem?_append_left hi]
     · cases hre
 
+/-! ## provenance of the re-dispatched argument block (what its cells hold) -/
+
+/-- `shift k` only moves cells of the `k + 1` topmost cells around -/
+theorem shift_prov : ∀ (k : Nat) (st st' : Stack), builtinApply.shift k st = .ok st' →
+    ∀ i, st.sp - k ≤ i → i ≤ st.sp → ∃ j, st.sp - k ≤ j ∧ j ≤ st.sp ∧ st'.cellAt i = st.cellAt j := by
+  intro k
+  induction k with
+  | zero =>
+    intro st st' h i h1 h2
+    simp only [builtinApply.shift] at h; cases h
+    exact ⟨i, h1, h2, rfl⟩
+  | succ k ih =>
+    intro st st' h i h1 h2
+    simp only [builtinApply.shift] at h
+    obtain ⟨v, hg, h⟩ := bind_inv h
+    obtain ⟨st1, hset, h⟩ := bind_inv h
+    have e : (-(k : Int) - 1) = -((k + 1 : Nat) : Int) := by omega
+    rw [e] at hset
+    obtain ⟨s1, s2, s3⟩ := setOffset_ok hset
+    obtain ⟨g1, g2⟩ := getOffset_ok hg
+    obtain ⟨r1, r2, r3⟩ := shift_ok _ _ _ h
+    subst s3
+    simp only at r1 r2 r3
+    by_cases hi : i = st.sp - (k + 1)
+    · refine ⟨st.sp - k, by omega, by omega, ?_⟩
+      rw [r3 i (by omega), at_set_cells _ _ _ _ s2]
+      simp only [hi, if_true]
+      exact g2
+    · obtain ⟨j, j1, j2, j3⟩ := ih _ _ h i (by simp only; omega) (by simp only; omega)
+      simp only at j1 j2
+      refine ⟨j, by omega, j2, ?_⟩
+      rw [j3, at_set_cells _ _ _ _ s2]
+      have : ¬ j = st.sp - (k + 1) := by omega
+      simp [this]
+
+/-- `pushList` pushes pointers -/
+theorem pushList_prov {s : St H} : ∀ (fuel : Nat) (rest : VCell) (n : Nat) (st : Stack) (n' : Nat) (st' : Stack),
+    builtinApply.pushList ops s fuel rest n st = .ok (n', st') → st.sp < st.cells.length →
+    ∀ i, st.sp < i → i ≤ st'.sp → ∃ a, st'.cellAt i = .ptr a := by
+  intro fuel
+  induction fuel with
+  | zero => intro rest n st n' st' h; simp only [builtinApply.pushList] at h; cases h
+  | succ fuel ih =>
+    intro rest n st n' st' h hcap i h1 h2
+    simp only [builtinApply.pushList] at h
+    split at h
+    · rename_i car cdr
+      obtain ⟨r1, r2, r3, r4⟩ := pushList_ok _ _ _ _ _ _ h (push_sp_lt _ _)
+      simp only [push_sp] at r2 r4
+      by_cases hi : i = st.sp + 1
+      · refine ⟨car, ?_⟩
+        rw [r4 i (by omega), push_cellAt]
+        simp [hi]
+      · exact ih _ _ _ _ _ h (push_sp_lt _ _) i (by simp only [push_sp]; omega) h2
+    · cases h; omega
+    · cases h
+
+/-- `apply`: every cell of the new argument block is a cell of the old one, or a pointer -/
+theorem builtinApply_prov {s s' : St H} {proc : VCell} {m : Nat} (h : builtinApply ops s = .ok (s', proc))
+    (hcap : s.stack.sp < s.stack.cells.length) (hA : s.stack.cellAt s.stack.sp = .argc m)
+    (hm : m + 1 ≤ s.stack.sp) :
+    (∃ j, s.stack.sp - 1 - m < j ∧ j < s.stack.sp ∧ proc = s.stack.cellAt j) ∧
+    ∀ m', s'.stack.cellAt s'.stack.sp = .argc m' → ∀ i, s'.stack.sp - 1 - m' < i → i < s'.stack.sp →
+      (∃ j, s.stack.sp - 1 - m < j ∧ j < s.stack.sp ∧ s'.stack.cellAt i = s.stack.cellAt j) ∨
+        ∃ a, s'.stack.cellAt i = .ptr a := by
+  obtain ⟨⟨_, ⟨m0, b1, b2, b3⟩, _, _, _, _⟩, _⟩ := builtinApply_ok h hcap hA hm
+  unfold builtinApply at h
+  obtain ⟨⟨a, st1⟩, hp1, h⟩ := bind_inv h
+  simp only at h
+  obtain ⟨argc, ha, h⟩ := bind_inv h
+  have p1 := pop_ok hp1
+  have ea := asArgc_ok ha
+  rw [p1.2.2, hA] at ea
+  cases ea
+  split at h
+  · cases h
+  · rename_i hm2
+    obtain ⟨⟨top, st2⟩, hp2, h⟩ := bind_inv h
+    simp only at h
+    have p2 := pop_ok hp2
+    replace h := ite_err_inv h
+    obtain ⟨proc', hg, h⟩ := bind_inv h
+    obtain ⟨st3, hsh, h⟩ := bind_inv h
+    obtain ⟨⟨x, st4⟩, hp4, h⟩ := bind_inv h
+    simp only at h
+    obtain ⟨⟨n', st5⟩, hpl, h⟩ := bind_inv h
+    simp only at h
+    obtain ⟨ipO, hu, h⟩ := bind_inv h
+    cases h
+    obtain ⟨q1, q2, q3⟩ := shift_ok _ _ _ hsh
+    have p4 := pop_ok hp4
+    have hcap4 : st4.sp < st4.cells.length := by
+      rw [p4.2.1, q2, p2.2.1, p1.2.1]; omega
+    obtain ⟨w1, w2, w3, w4⟩ := pushList_ok _ _ _ _ _ _ hpl hcap4
+    have hc4 : ∀ i, st4.cellAt i = st3.cellAt i := by intro i; unfold Stack.cellAt; rw [p4.2.1]
+    have hc2 : ∀ i, st2.cellAt i = s.stack.cellAt i := by
+      intro i; unfold Stack.cellAt; rw [p2.2.1, p1.2.1]
+    have e0 : (-((m : Int) - 2)) = -((m - 2 : Nat) : Int) := by omega
+    rw [e0] at hg
+    obtain ⟨g1, g2⟩ := getOffset_ok hg
+    refine ⟨⟨st2.sp - (m - 2), by omega, by omega, by rw [g2, hc2]⟩, ?_⟩
+    intro m' hm' i hi1 hi2
+    simp only at b1 b2 b3 hm' hi1 hi2
+    rw [b1] at hm'; cases hm'
+    have hsp' : (st5.push (VCell.argc n')).sp = st5.sp + 1 := push_sp _ _
+    rw [hsp'] at hi1 hi2 b3
+    show (∃ j, _ ∧ _ ∧ (st5.push (VCell.argc n')).cellAt i = _) ∨ ∃ a, (st5.push (VCell.argc n')).cellAt i = _
+    rw [push_cellAt]
+    have n1 : ¬ i = st5.sp + 1 := by omega
+    simp only [n1, if_false]
+    by_cases hlow : i ≤ st4.sp
+    · left
+      rw [w4 i hlow, hc4]
+      obtain ⟨j, j1, j2, j3⟩ := shift_prov _ _ _ hsh i (by omega) (by omega)
+      exact ⟨j, by omega, by omega, by rw [j3, hc2]⟩
+    · right
+      exact pushList_prov _ _ _ _ _ _ hpl hcap4 i (by omega) (by omega)
+
+/-- `call/cc`: the new argument block is the continuation object -/
+theorem builtinCallcc_new {s s' : St H} {proc : VCell} {m : Nat} (h : builtinCallcc ops s = .ok (s', proc))
+    (hA : s.stack.cellAt s.stack.sp = .argc m) :
+    (∃ j, s.stack.sp - 1 - m < j ∧ j < s.stack.sp ∧ proc = s.stack.cellAt j) ∧
+    s'.stack.cellAt s'.stack.sp = .argc 1 ∧
+    ∃ cst, s'.stack.cellAt (s'.stack.sp - 1) = (ops.newCont s.heap ⟨cst, s.ep, s.ipL, s.ipO, s.bp⟩).2 := by
+  unfold builtinCallcc at h
+  obtain ⟨⟨a, st1⟩, hp1, h⟩ := bind_inv h
+  simp only at h
+  obtain ⟨argc, ha, h⟩ := bind_inv h
+  have p1 := pop_ok hp1
+  have ea := asArgc_ok ha
+  rw [p1.2.2, hA] at ea
+  cases ea
+  split at h
+  · cases h
+  · rename_i hm1
+    have hm1' : m = 1 := by simpa using hm1
+    subst hm1'
+    obtain ⟨⟨pr, st2⟩, hp2, h⟩ := bind_inv h
+    simp only at h
+    have p2 := pop_ok hp2
+    split at h
+    · cases h
+    · obtain ⟨cst, hcp, h⟩ := bind_inv h
+      obtain ⟨ipO, hu, h⟩ := bind_inv h
+      cases h
+      refine ⟨⟨s.stack.sp - 1, by omega, by omega, ?_⟩, ?_, cst, ?_⟩
+      · rw [p2.2.2]; unfold Stack.cellAt; rw [p1.2.1]
+        have : st1.sp = s.stack.sp - 1 := by omega
+        rw [this]
+      · show ((st2.push _).push (VCell.argc 1)).cellAt (((st2.push _).push (VCell.argc 1)).sp) = _
+        simp [push_cellAt]
+      · show ((st2.push _).push (VCell.argc 1)).cellAt (((st2.push _).push (VCell.argc 1)).sp - 1) = _
+        rw [push_sp, push_sp, push_cellAt, push_cellAt, push_sp]
+        have n1 : ¬ (st2.sp + 1 + 1 - 1 = st2.sp + 1 + 1) := by omega
+        have n2 : (st2.sp + 1 + 1 - 1 = st2.sp + 1) := by omega
+        simp [n1, n2]
+
+/-- the `acc` a builtin leaves is a value: a pointer, or what `maybe_put` returns -/
+theorem runBuiltin_acc {cl : CodeLaws ops} {s s' : St H} {id : Nat} (h : runBuiltin ops id s = .ok s') :
+    cl.Val s'.acc := by
+  unfold runBuiltin at h
+  dsimp only at h
+  have key : ∀ (x : Outcome (St H × VCell)), (x >>= fun (p : St H × VCell) =>
+      match p with
+      | (s, v) =>
+        match v with
+        | VCell.ptr p => Outcome.ok { s with acc := VCell.ptr p }
+        | v => match ops.maybePut s.heap v with
+          | (h, r) => Outcome.ok { s with heap := h, acc := r }) = Outcome.ok s' → cl.Val s'.acc := by
+    intro x hx
+    obtain ⟨⟨s2, v⟩, hb, hx⟩ := bind_inv hx
+    dsimp only at hx
+    split at hx
+    · cases hx; exact cl.val_imm _ rfl
+    · cases hx; exact cl.maybePut_val _ _
+  cases hk : ops.builtinKind s.heap id <;> rw [hk] at h <;> dsimp only at h <;> exact key _ h
+
+/-- `eval` re-dispatches with an empty argument block -/
+theorem builtinEvalProc_blk {s s' : St H} {lam : VCell} (h : builtinEvalProc ops s = .ok (s', lam)) :
+    s'.stack.cellAt s'.stack.sp = .argc 0 := by
+  unfold builtinEvalProc at h
+  obtain ⟨⟨a, st1⟩, hp1, h⟩ := bind_inv h
+  simp only at h
+  obtain ⟨argc, ha, h⟩ := bind_inv h
+  split at h
+  · cases h
+  · obtain ⟨⟨e, st2⟩, hp2, h⟩ := bind_inv h
+    simp only at h
+    obtain ⟨⟨h', l⟩, hce, h⟩ := bind_inv h
+    simp only at h
+    obtain ⟨ipO, hu, h⟩ := bind_inv h
+    cases h
+    simp [push_cellAt]
+
+/-- invoking a continuation delivers the single argument of the call in `acc` -/
+theorem invokeCont_acc {s s' : St H} {c : Cont} (h : invokeCont s c = .ok s') :
+    ∃ m, s.stack.cellAt s.stack.sp = .argc m ∧ (1 ≤ m ∧ 2 ≤ s.stack.sp) ∧
+      s'.acc = s.stack.cellAt (s.stack.sp - 1) := by
+  unfold invokeCont at h
+  obtain ⟨⟨a, st1⟩, hp1, h⟩ := bind_inv h
+  simp only at h
+  obtain ⟨n, ha, h⟩ := bind_inv h
+  split at h
+  · cases h
+  · rename_i hn
+    obtain ⟨⟨r, st2⟩, hp2, h⟩ := bind_inv h
+    simp only at h
+    obtain ⟨s3, hrc, h⟩ := bind_inv h
+    cases h
+    unfold restoreCont at hrc
+    obtain ⟨st3, hre, hrc⟩ := bind_inv hrc
+    cases hrc
+    have p1 := pop_ok hp1
+    have p2 := pop_ok hp2
+    have ea := asArgc_ok ha
+    refine ⟨n, by rw [← p1.2.2, ea], ⟨by omega, by omega⟩, ?_⟩
+    show r = _
+    rw [p2.2.2]
+    unfold Stack.cellAt
+    rw [p1.2.1]
+    have : st1.sp = s.stack.sp - 1 := by omega
+    rw [this]
+
 end Marwood.Vm
